@@ -1046,6 +1046,23 @@ class ProbabilisticTensorDictSequential(TensorDictSequential):
             else:
                 return TensorDictSequential(*mods)
 
+    def _from_selected_modules(self, modules) -> TensorDictSequential:
+        # as for slicing: a selection that does not end with a probabilistic module is a plain
+        # TensorDictSequential; otherwise the class (and return_composite) is kept
+        if isinstance(modules, collections.OrderedDict):
+            values = list(modules.values())
+            args = (modules,)
+        else:
+            values = list(modules)
+            args = tuple(modules)
+        prob = (ProbabilisticTensorDictModule, ProbabilisticTensorDictSequential)
+        if isinstance(values[-1], prob):
+            if self.return_composite:
+                return type(self)(*args, return_composite=self.return_composite)
+            # without return_composite only the last module may be probabilistic... as at construction
+            return type(self)(*args)
+        return TensorDictSequential(*args)
+
     _dist_sample = ProbabilisticTensorDictModule._dist_sample
 
     @property
